@@ -121,6 +121,20 @@ Definition date_new (y m d : val) : val :=
     end
   end.
 
+(* datetime.datetime(y, m, d, h, mi, s, us): ints only *)
+Definition datetime_new (l : list val) : val :=
+  match first_err l with Some e => VErr e | None =>
+  match map norm l with
+  | [VInt yy; VInt mm; VInt dd; VInt h; VInt mi; VInt s; VInt us] =>
+      if (1 <=? yy) && (yy <=? 9999) && (1 <=? mm) && (mm <=? 12)
+         && (1 <=? dd) && (dd <=? days_in_month yy mm)
+         && (0 <=? h) && (h <? 24) && (0 <=? mi) && (mi <? 60) && (0 <=? s) && (s <? 60)
+         && (0 <=? us) && (us <? 1000000)
+      then VObj cDateTime [VInt yy; VInt mm; VInt dd; VInt h; VInt mi; VInt s; VInt us]
+      else VErr ValueError
+  | _ => VErr TypeError
+  end end.
+
 Definition date_ymd (v : val) : option (Z * Z * Z) :=
   match v with
   | VObj c (VInt y :: VInt m :: VInt d :: _) =>
